@@ -76,7 +76,9 @@ def free_traces(v, thorough, seed):
             ok += 1
         else:
             m = re.search(r'"FURTHEST LINE EXPLAINED",\s*(\d+),\s*(.*?)>>', r.text, re.S)
-            line = int(m.group(1)) if m else -1
+            if not m or not r.ok:
+                raise lib.ToolError(f"TLC did not finish validating the free-running trace of round {sm['round']}: see out/{PID}/tlc_trace_free_{sm['round']}.log")
+            line = int(m.group(1))
             nxt = trace[line] if 0 <= line < len(trace) else None
             if nxt and nxt["ev"] == "return":
                 # everything up to a caller's return is explained, the outcome itself is not: no behaviour of the spec gives this caller this result here
@@ -118,6 +120,22 @@ def run(tier, seed):
     must = [b for b in one if b["conn"] != "up"][: (400 if thorough else 40)]
     stale = [b for b in one if any(a[0] == "reply" and 50 < a[1] < 99 for a in b["hist"]) and b["conn"] == "up"]
     stale = rng.sample(stale, min(len(stale), 300 if thorough else 40))
+    # the node's connection to a second peer goes away while a call to the first peer is outstanding
+    lib.tlc_expect_ok("mc/MC_Rpc.tla", "mc/MC_Rpc_other.cfg", PID, "mc_other")
+    lib.tlc_expect_violation("mc/MC_Rpc.tla", "mc/MC_Rpc_clearall.cfg", PID, "mc_clearall", "NoSpuriousCancel")
+    v.cov["mc_configs"] += [{"cfg": "MC_Rpc_other", "result": "all invariants and NoSpuriousCancel hold with a second connection that may close at any time"},
+                            {"cfg": "MC_Rpc_clearall", "result": "counterexample to NoSpuriousCancel when the end of any connection empties the node-wide table"}]
+    other = behaviours("gen/Gen_Rpc_other.cfg", "gen_other")
+
+    def closes_while_outstanding(b):
+        h = b["hist"]
+        if ["other_close", 0] not in h or ["send", 1] not in h:
+            return False
+        i = h.index(["other_close", 0])
+        ends = [k for k, a in enumerate(h) if a in (["wake", 1], ["cleanup", 1], ["timeout", 1])]
+        return h.index(["send", 1]) < i and (not ends or i < ends[0]) and ["wake", 1] in h
+    other = [b for b in other if closes_while_outstanding(b)]
+    other = other if thorough else rng.sample(other, min(len(other), 25))
     # two calls one after the other: a second copy of the first call's reply routed while the second call is outstanding
     seq2 = behaviours("gen/Gen_Rpc_seq2.cfg", "gen_seq2")
 
@@ -132,7 +150,7 @@ def run(tier, seed):
     seq2 = [b for b in seq2 if dup_after_reuse(b)]
     seq2 = seq2 if thorough else rng.sample(seq2, min(len(seq2), 40))
     late = [b for b in one if any(a[0] == "timeout" for a in b["hist"]) and any(a[0] == "route" for a in b["hist"])][: (200 if thorough else 25)]
-    scen = {json.dumps(b["hist"]) + b["conn"]: b for b in sample_one + must + late + stale + two + seq2}
+    scen = {json.dumps(b["hist"]) + b["conn"]: b for b in sample_one + must + late + stale + two + seq2 + other}
     scen = list(scen.values())
     for i, s in enumerate(scen):
         s["id"] = i
@@ -169,6 +187,8 @@ def run(tier, seed):
                     v.violation("a caller received a reply addressed to a different call", {**case, "caller": c, "own_call": r["rid"], "reply_was_for": rid_in_reply})
                 elif exp["k"] != "reply" and not o["notes"]:
                     v.add_drift(f"caller {c} got its own reply where the model says {exp['k']}", case)
+            elif gk == "cancelled" and ["other_close", 0] in s["hist"]:
+                v.violation("a call to a healthy peer was cancelled when the node's connection to another peer ended", {**case, "caller": c, "got": got})
             elif gk in ("timeout", "not_connected", "send_error", "cancelled"):
                 if exp["k"] == "reply" and not o["notes"]:
                     v.violation("a caller whose reply was delivered in time did not get it", {**case, "caller": c, "got": got})
